@@ -186,6 +186,11 @@ struct C06Script {
     slow_answers: bool,
     exhaust_mode: bool,
     fill_outstanding: u64,
+    /// Forgetful runs: per request, how many more EXECUTEs are answered UNPREPARED (the
+    /// node has dropped the statement again); u32::MAX = every one, forever.
+    forgetful: bool,
+    unprep_budget: BTreeMap<u64, u32>,
+    unprepared_frames: BTreeMap<u64, u64>,
 }
 
 /// Marker flag of the requests that fill a connection's stream-id space.
@@ -206,6 +211,29 @@ impl Script for C06Script {
         let Some(m) = rq.marker else {
             return Reply::Default;
         };
+        if self.forgetful {
+            if let Request::Execute { id, .. } = req {
+                let k = self
+                    .unprep_budget
+                    .entry(m)
+                    .or_insert_with(|| [1u32, 1, 2, 3, 6, u32::MAX][tape::choose("c06:unprepared_times", 6) as usize]);
+                if *k > 0 {
+                    if *k != u32::MAX {
+                        *k -= 1;
+                    }
+                    w.cluster.nodes[rq.node].prepared.remove(id);
+                    *self.unprepared_frames.entry(m).or_insert(0) += 1;
+                    w.fault(Fault::Evict);
+                    return Reply::Default; // the node does not know the id: UNPREPARED
+                }
+            }
+            self.frames.entry(m).or_default().push(FrameSeen {
+                node: rq.node,
+                consistency: cl,
+                outcome: AttemptOutcome::Success,
+            });
+            return Reply::DefaultAfter(w.think());
+        }
         if self.exhaust_mode {
             // Exhaustion runs: the fill requests are never answered (their stream ids
             // stay taken), everything else succeeds.
@@ -352,6 +380,11 @@ struct Plan {
     /// Rare: every stream id of the connection to the replica is taken; the attempt at
     /// it fails locally ("no free stream id") and the retry policy decides what follows.
     exhaust: bool,
+    /// A node keeps forgetting prepared statements: EXECUTEs are answered UNPREPARED once,
+    /// several times in a row, or forever. However often the driver re-prepares and
+    /// repeats within one attempt, the number of frames stays bounded by the attempts
+    /// the policy decided, and the call returns.
+    forgetful: bool,
 }
 
 pub fn run(req: &RunRequest) -> Value {
@@ -364,6 +397,7 @@ pub fn run(req: &RunRequest) -> Value {
             success_weight: [2, 6, 20][tape::choose("c06:success_weight", 3) as usize],
             speculative: tape::chance("c06:speculative", 1, 5),
             exhaust: tape::chance("c06:exhaust", if thorough { 10 } else { 2 }, 1000),
+            forgetful: tape::chance("c06:forgetful", 1, 8),
         };
         let mut plan = plan;
         if std::env::var("VERIF_C06_EXHAUST").is_ok() {
@@ -373,6 +407,10 @@ pub fn run(req: &RunRequest) -> Value {
             plan.nodes = 2;
             plan.speculative = false;
             plan.concurrent = false;
+            plan.forgetful = false;
+        }
+        if plan.forgetful {
+            plan.speculative = false;
         }
         let plan = plan;
         let mut cluster = Cluster::new("c06");
@@ -418,6 +456,7 @@ async fn main(plan: Plan) -> Outcome {
             rst: !plan.concurrent,
             slow_answers: plan.speculative,
             exhaust_mode: plan.exhaust,
+            forgetful: plan.forgetful,
             ..Default::default()
         }));
     }
@@ -472,7 +511,7 @@ async fn main(plan: Plan) -> Outcome {
             policy: [Policy::Default, Policy::Downgrading, Policy::Fallthrough]
                 [tape::weighted("c06:policy", &[3, 3, 1])],
             consistency: CONSISTENCIES[tape::weighted("c06:cl", &[3, 2, 1, 1, 1, 1, 1, 1])],
-            kind: tape::choose("c06:kind", 7),
+            kind: if plan.forgetful { [2u64, 3, 6][tape::choose("c06:kind_prepared", 3) as usize] } else { tape::choose("c06:kind", 7) },
         });
     }
     let mut handles = Vec::new();
@@ -589,6 +628,13 @@ async fn main(plan: Plan) -> Outcome {
         w.script = Some(s);
         f
     };
+    let unprepared_by_marker = {
+        let mut w = world::world();
+        let mut s = w.script.take().unwrap();
+        let f = s.as_any().downcast_mut::<C06Script>().unwrap().unprepared_frames.clone();
+        w.script = Some(s);
+        f
+    };
     let mut retried = 0u64;
     let mut total_frames = 0u64;
     let mut sample_hist = Vec::new();
@@ -614,6 +660,23 @@ async fn main(plan: Plan) -> Outcome {
         }
         if plan.speculative && s.idempotent {
             // Speculative copies of an idempotent request are not retry decisions.
+            continue;
+        }
+        if plan.forgetful {
+            // Within one attempt the driver re-prepares and repeats; that may not multiply
+            // beyond the attempts the policy decided (one repeat, generously two, each).
+            let unprepared = unprepared_by_marker.get(&s.marker).copied().unwrap_or(0);
+            let retry_decisions = decisions
+                .iter()
+                .filter(|d| matches!(d.decision, RetryDecision::RetrySameTarget(_) | RetryDecision::RetryNextTarget(_)))
+                .count() as u64;
+            if unprepared > 2 * (1 + retry_decisions) {
+                out.violation(
+                    "c06.unbounded_reexecution",
+                    format!("{unprepared} EXECUTE frames were answered UNPREPARED for one request with {} attempt(s) decided: {ctx}", 1 + retry_decisions),
+                );
+            }
+            out.count("forgetful_requests_judged", 1);
             continue;
         }
         // (a) non-idempotent: re-sent only after an outcome that proves non-application.
